@@ -262,14 +262,14 @@ func init() {
 						if isNullish(inputVal.DefaultValue) {
 							return nil, nil
 						}
-						astVal := astFromValue(inputVal.DefaultValue, inputVal)
+						astVal := astFromValue(inputVal.DefaultValue, inputVal.Type)
 						return printer.Print(astVal), nil
 					}
 					if inputVal, ok := p.Source.(*InputObjectField); ok {
 						if inputVal.DefaultValue == nil {
 							return nil, nil
 						}
-						astVal := astFromValue(inputVal.DefaultValue, inputVal)
+						astVal := astFromValue(inputVal.DefaultValue, inputVal.Type)
 						return printer.Print(astVal), nil
 					}
 					return nil, nil
@@ -729,8 +729,36 @@ func astFromValue(value interface{}, ttype Type) ast.Value {
 		return val
 	}
 
-	if valueVal.Type().Kind() == reflect.Map {
-		// TODO: implement astFromValue from Map to Value
+	// Convert a Golang map to a GraphQL input object literal, field by
+	// field in name order, using the declared field types.
+	if ttype, ok := ttype.(*InputObject); ok {
+		if valueMap, ok := value.(map[string]interface{}); ok {
+			fieldNames := []string{}
+			for name := range ttype.Fields() {
+				fieldNames = append(fieldNames, name)
+			}
+			sort.Strings(fieldNames)
+			fields := []*ast.ObjectField{}
+			for _, name := range fieldNames {
+				fieldAST := astFromValue(valueMap[name], ttype.Fields()[name].Type)
+				if fieldAST != nil {
+					fields = append(fields, ast.NewObjectField(&ast.ObjectField{
+						Name:  ast.NewName(&ast.Name{Value: name}),
+						Value: fieldAST,
+					}))
+				}
+			}
+			return ast.NewObjectValue(&ast.ObjectValue{Fields: fields})
+		}
+	}
+
+	// An enum default is configured as the internal value; the literal is
+	// the value's name.
+	if ttype, ok := ttype.(*Enum); ok {
+		if name, ok := ttype.Serialize(value).(string); ok {
+			return ast.NewEnumValue(&ast.EnumValue{Value: name})
+		}
+		return nil
 	}
 
 	if value, ok := value.(bool); ok {
